@@ -78,6 +78,18 @@ def specs(tier, seed):
         sess = {"qtype": "NULL", "raw": True} if i % 4 != 3 else {"qtype": common.QTYPES[i % 7], "lazy": i % 2}
         out.append({"seed": seed * 100000 + 295 + i, "sess": dict(sess, hs_tun=1 + (i + i // 4) % 4), "relay": {},
                     "mode": "clean", "pkts": pk, "dur_ms": tend + 45000, "label": "hstun%d" % i})
+    # steady traffic for well over a minute without a pause long enough for a keep-alive (the client pings only after
+    # select() timed out): nothing but the tunnel's own data keeps the session alive
+    for i in range(6 if tier == "quick" else 24):
+        gap = [900, 700, 1500, 2500][i % 4]
+        n = (100000 if i % 2 == 0 else 75000) // gap
+        # upstream only / downstream only / alternating
+        dirs = [("C0", "S"), ("S", "C0")]
+        pk = [[300 + gap * j] + list(dirs[0] if i % 3 == 0 else dirs[1] if i % 3 == 1 else dirs[(j + i) % 2]) +
+              [["text", "rand"][j % 2], 40 + (j * 7) % 150] for j in range(n)]
+        sess = {"qtype": "NULL", "raw": True} if i % 4 != 3 else {"qtype": common.QTYPES[i % 7], "lazy": 1}
+        out.append({"seed": seed * 100000 + 297 + i, "sess": sess, "relay": {}, "mode": "clean", "pkts": pk,
+                    "dur_ms": 300 + gap * n + 40000, "label": "steady%d" % i})
     # fault prefix, heal, settle, then packets that must arrive
     n_f = 60 if tier == "quick" else 700
     fcfgs = common.configs(n_f, seed + 3)
